@@ -391,6 +391,68 @@ def laguerre_rsi_ladder(F, R, Ns):
          if not bad and cnt > 0 else (bad[0] if bad else 'ladder rows not found'), v.file)
 
 
+def flex_numerator(F, R, Ns):
+    """TrendFlex / ReFlex: the quantity that is normalised is the (slope-corrected, for ReFlex) mean deviation over the window
+    of N filter values including the current one: X = (1/N) Σ_{i=0..N-1} (f_t + i·s − f_(t−i)), s = 0 resp. (f_(t−N+1) − f_t)/N.
+    Compared as linear forms over the steady-state atoms (filter window full), coefficient by coefficient."""
+    from .lti import entry_state
+    views = view_by_name(F)
+    for n, with_slope in (('TrendFlex', False), ('ReFlex', True)):
+        v = views.get(n)
+        if v is None:
+            continue
+        m = model(F, v)
+        q = buffer_by_role(F, v, 'recursive')
+        # the normalised quantity X: numerator of out = X / sqrt(..)
+        X = None
+        for cell, t in m.up_fields.items():
+            for x in subterms(t):
+                if x[0] == 'op' and x[1] == 'div' and x[2][1][0] == 'op' and x[2][1][1] == 'sqrt':
+                    X = x[2][0]
+        bad = []
+        cnt = 0
+        if X is None or q is None:
+            R.ob('K2-coef', '%s:numerator' % n, False, 'normalised quantity or filter window not found', v.file)
+            continue
+        for N in [N for N in Ns if 2 <= N <= 24]:
+            mm = [x for x in m.ctor_models if x['fn'].name == 'new' and x['init'] is not None]
+            if not mm:
+                continue
+            ints = [nm for (pid, nm, ty) in mm[0]['fn'].param_ids() if ty == 'usize']
+            params, probs = param_env(mm[0], {ints[0]: N}, m.touched)
+            for cname, states, pr in steady_state(m, [N], 3 * N + 24):
+                if cname != 'new' or not states:
+                    continue
+                fc = float_cells(F, v)
+                for s_ in states:
+                    state, atoms = entry_state(s_, params, fc)
+                    ev = LinEval(state, m.up_vg.loops)
+                    try:
+                        got = ev.ev(X)
+                        newq = ev.ev(m.up_exits[-1].fields.get(q, ('in', q)))
+                    except NonConst:
+                        continue
+                    if not isinstance(got, Form) or not isinstance(newq, list) or len(newq) != N:
+                        continue
+                    cnt += 1
+                    f = newq[-1]
+                    want = Form()
+                    slope = Form()
+                    if with_slope:
+                        slope = newq[0].plus(f, -1.0).scale(1.0 / N)
+                    for i in range(N):
+                        term = f.plus(slope.scale(float(i))).plus(newq[N - 1 - i], -1.0)
+                        want = want.plus(term)
+                    want = want.scale(1.0 / N)
+                    keys = set(got) | set(want)
+                    if any(abs(got.get(k_, 0.0) - want.get(k_, 0.0)) > 1e-9 for k_ in keys):
+                        k_ = max(keys, key=lambda k__: abs(got.get(k__, 0.0) - want.get(k__, 0.0)))
+                        bad.append('N=%d: weight of %s in the normalised quantity is %.6g, the mean deviation over the window gives %.6g' % (N, k_, got.get(k_, 0.0), want.get(k_, 0.0)))
+        R.ob('K2-coef', '%s:numerator' % n, not bad and cnt > 0,
+             'the normalised quantity is the %smean deviation over the N filter values including the current one (%d window lengths)' % ('slope-corrected ' if with_slope else '', cnt)
+             if not bad and cnt > 0 else (bad[0] if bad else 'nothing analysed'), v.file)
+
+
 def fisher_feedback(F, R):
     v = view_by_name(F).get('EhlersFisherTransform')
     if v is None:
@@ -716,6 +778,7 @@ def run_c11(F, R, tier):
         R.ob('K2-coef', 'CyberCycle:recursion', not bad and cnt > 0,
              'input gain (1 − α/2)² and feedback 2(1−α), −(1−α)² for %d window lengths' % cnt if not bad and cnt > 0 else (bad[0] if bad else 'new output row not found'), v.file)
     laguerre_rsi_ladder(F, R, Ns)
+    flex_numerator(F, R, Ns)
     # "window of N filter values including the current one": the value/filter windows hold exactly N once full
     from .e_window import check_windows
     only = {}
